@@ -344,6 +344,12 @@ def o_wfc_state(ex, V):
                     # the state recorded for the next poll / as the result is the one the check returned, exactly
                     V("C13.recorded_state_is_not_the_returned_state", {"inv": k, "pos": ev[1]["pos"], "returned": want, "recorded": ev[1]["payload"],
                                                                         "action": ev[1]["action"]})
+            elif ev[0] == "upd" and ev[1]["kind"] == "wfc" and ev[1]["action"] == "FAIL" and tuple(ev[1]["pos"]) in returned:
+                want = returned.pop(tuple(ev[1]["pos"]))
+                if want is not None and want != "!set" and not specs[tuple(ev[1]["pos"])].get("fragile"):
+                    # the check function returned a state and the strategy answered stop/continue: the poll is recorded as
+                    # SUCCEED or RETRY - a FAIL record claims a failure the check function never had
+                    V("C13.condition_failed_although_check_returned", {"inv": k, "pos": ev[1]["pos"], "returned": want, "error": ev[1].get("error")})
         for ev in inv["trace"]:
             if ev[0] == "deliver" and "err" in ev[2] and tuple(ev[1]) in specs:
                 ended_in_error.add(tuple(ev[1]))
@@ -734,6 +740,41 @@ def extra(ctx, prop):
             run_oracles(ctx, ex, "engine.unserializable_state", only_prop=prop)
             ctx.case((json.dumps(script, sort_keys=True), json.dumps(ex["plans"], sort_keys=True)) if len(ex["invs"]) >= 2 else None)
             ctx.count("wfc.unserializable")
+    if prop in ("C04", "C12"):
+        # an execution woken for another reason (a callback completes) while a retry is still pending - close to its due
+        # time: the step is not attempted before the backend has made it READY and its START is recorded
+        for i in range(ctx.scale(20, 400)):
+            amo = ctx.rng.random() < 0.8
+            d = ctx.rng.choice([0, 1, 1, 3])
+            st_ = {"op": "step", "body": [{"err": {"cls": "Flaky", "msg": "f"}}, {"ok": "s"}], "amo": amo,
+                   "retry": {"max": 3, "delays": [d], "noretry": []}, "catch": True}
+            script = [{"op": "cbnew", "slot": 0}, st_, {"op": "cbres", "slot": 0, "catch": True}]
+            if ctx.rng.random() < 0.3:
+                script = script + [{"op": "step", "body": [{"ok": "t"}], "amo": False, "retry": {"max": 1, "delays": [], "noretry": []}, "catch": True}]
+            plans = [{"imm": [], "page_size": ctx.rng.choice([None, 1])} for _ in range(8)]
+            if ctx.rng.random() < 0.5:
+                plans[2]["crash_tick"] = ctx.rng.randrange(0, 4)     # the attempt made once the retry is ready dies
+            events = [[("callbackDone", [1], {"k": "succeeded", "v": "R:ok"})], [("retryReady", [2], None)], [("retryReady", [2], None)],
+                      [("retryReady", [2], None)], [], [], [], []]
+            one(ctx, script, ctx.rng.randrange(1 << 30), prop, component="engine.early_wakeup", plans=plans, events=events)
+            ctx.count("early_wakeup")
+    if prop in ("C08", "C01", "C11"):
+        # a call that is rejected before anything is recorded (an invoke whose payload the serializer refuses, caught by
+        # user code) still occupies its position: what follows keeps its identity in every later invocation
+        # (oracle-only: rejected payloads are not in the model)
+        for i in range(ctx.scale(30, 600)):
+            step = lambda tok: {"op": "step", "body": [{"ok": tok}], "amo": False, "retry": {"max": 1, "delays": [], "noretry": []}, "catch": True}  # noqa: E731
+            bad = {"op": "invoke", "payload": "!set", "catch": True}
+            pre = [step("s")] if ctx.rng.random() < 0.4 else []
+            script = pre + [bad, step("i5"), {"op": "wait", "secs": 1}, step("t")]
+            if ctx.rng.random() < 0.4:
+                script = script + [{"op": "wait", "secs": 1}, step("s")]
+            if ctx.rng.random() < 0.4:
+                script = [{"op": "child", "body": script[:len(pre) + 2], "limit": 200, "summary": "", "catch": True}] + script[len(pre) + 2:]
+            ex = E.run_execution(script, ctx.rng.randrange(1 << 30), crash_p=0.0, fault_p=0.0)
+            run_oracles(ctx, ex, "engine.rejected_invoke", only_prop=prop)
+            ctx.case((json.dumps(script, sort_keys=True), json.dumps(ex["plans"], sort_keys=True)) if len(ex["invs"]) >= 2 else None)
+            ctx.count("invoke.rejected_payload")
     if prop == "C12":
         from harness import comp_strategy
         comp_strategy.run(ctx)
